@@ -28,7 +28,9 @@
 (***************************************************************************)
 EXTENDS LakeAbs
 
-CONSTANTS ColConfigs, \* sequence of [s |-> <<s_1..s_N>>, x |-> <<x_1..x_N>>]: the fields s and x of value id i
+CONSTANTS EmitMod,    \* export the histories with HistHash % EmitMod = EmitRem
+          EmitRem,
+          ColConfigs, \* sequence of [s |-> <<s_1..s_N>>, x |-> <<x_1..x_N>>]: the fields s and x of value id i
           NLegs,      \* scatter legs of the parallel plan (parallelism >= 2)
           MaxDict     \* vng.MaxDictSize (256)
 
@@ -276,6 +278,9 @@ StepPred(i) ==
         [vec |-> Vectorized(q, O, Vs), seq |-> ResJson(SeqResult(q, O)), order |-> lo,
          one |-> [res |-> ResJson(PlanResult(q, O, Vs, one)), taint |-> Taint(q, O, Vs, one), asg |-> one],
          rr  |-> [res |-> ResJson(PlanResult(q, O, Vs, rr)), taint |-> Taint(q, O, Vs, rr), asg |-> rr]]]
-VecExport == (Len(hist) = MaxOps) =>
+HistHash == cc + Len(commits) * 3 + Len(objs) * 5 + Cardinality(present) * 7
+            + SumSeq([i \in 1..Len(hist) |-> i * (CASE hist[i].op = "load" -> 1 [] hist[i].op = "addvec" -> 2 [] hist[i].op = "delvec" -> 3
+                                                     [] hist[i].op = "compact" -> 4 [] OTHER -> 5) + (IF hist[i].res = "ok" THEN 11 ELSE 0)])
+VecExport == (Len(hist) = MaxOps /\ HistHash % EmitMod = EmitRem) =>
                PrintT(<<"VHIST", ToJson([cc |-> cc, hist |-> hist, pred |-> [i \in 1..Len(hist) |-> IF hist[i].readable["main"] THEN StepPred(i) ELSE <<>>]])>>)
 =============================================================================
